@@ -124,6 +124,9 @@ func pushScenario(t *rapid.T, restartFocus bool) sim.Scenario {
 			}
 			if rapid.IntRange(0, 3).Draw(t, "lead") == 0 {
 				st.ID = "lead" // the reply travels in a batch behind a call of the peer's own
+			} else if rapid.IntRange(0, 5).Draw(t, "quoted") == 0 {
+				st.ID = "quoted" // the id's digits as a JSON string: not the id the server issued
+				st.D += 10       // (its payload differs from that of any genuine reply)
 			}
 			if st.Push == "push" && st.K != 77 && slowWaiter && rapid.IntRange(0, 2).Draw(t, "racecancel") != 0 {
 				// ... and the caller gives up while the reply is on its last yards:
